@@ -326,25 +326,92 @@ func (b *batch) Commit(ctx context.Context) error {
 
 // --- read transactions (flavour "ctx") ----------------------------------------
 
-// TxnDisk adds datastore.TxnDatastore. Read transactions are read-through:
-// they see the latest committed state (go-datastore promises no snapshot).
-type TxnDisk struct{ *Disk }
+// TxnDisk adds datastore.TxnDatastore. Read transactions are either read-through
+// (they see the latest committed state: go-datastore promises no snapshot) or, with
+// Snapshot set, snapshot-isolated the way badger's are: a transaction sees the
+// datastore as it was when the transaction was opened.
+type TxnDisk struct {
+	*Disk
+	Snapshot bool
+}
 
-type txn struct{ d *Disk }
+type txn struct {
+	d    *Disk
+	snap map[string][]byte // nil = read-through
+}
 
 func (t TxnDisk) NewTransaction(ctx context.Context, readOnly bool) (ds.Txn, error) {
 	if !readOnly {
 		return nil, errors.New("simdisk: only read-only transactions")
 	}
 	t.Disk.Sim.Probe("read-txn")
-	return &txn{d: t.Disk}, nil
+	if !t.Snapshot {
+		return &txn{d: t.Disk}, nil
+	}
+	t.Disk.Sim.Probe("read-txn-snapshot")
+	t.Disk.mu.Lock()
+	snap := make(map[string][]byte, len(t.Disk.data))
+	for k, v := range t.Disk.data {
+		snap[k] = v
+	}
+	t.Disk.mu.Unlock()
+	return &txn{d: t.Disk, snap: snap}, nil
 }
 
-func (t *txn) Get(ctx context.Context, key ds.Key) ([]byte, error)  { return t.d.Get(ctx, key) }
-func (t *txn) Has(ctx context.Context, key ds.Key) (bool, error)    { return t.d.Has(ctx, key) }
-func (t *txn) GetSize(ctx context.Context, key ds.Key) (int, error) { return t.d.GetSize(ctx, key) }
+func (t *txn) Get(ctx context.Context, key ds.Key) ([]byte, error) {
+	if t.snap == nil {
+		return t.d.Get(ctx, key)
+	}
+	if err := t.d.pre("read", "get", key.String()); err != nil {
+		return nil, err
+	}
+	v, ok := t.snap[key.String()]
+	if !ok {
+		return nil, ds.ErrNotFound
+	}
+	return append([]byte(nil), v...), nil
+}
+
+func (t *txn) Has(ctx context.Context, key ds.Key) (bool, error) {
+	if t.snap == nil {
+		return t.d.Has(ctx, key)
+	}
+	if err := t.d.pre("read", "has", key.String()); err != nil {
+		return false, err
+	}
+	_, ok := t.snap[key.String()]
+	return ok, nil
+}
+
+func (t *txn) GetSize(ctx context.Context, key ds.Key) (int, error) {
+	if t.snap == nil {
+		return t.d.GetSize(ctx, key)
+	}
+	if err := t.d.pre("read", "size", key.String()); err != nil {
+		return -1, err
+	}
+	v, ok := t.snap[key.String()]
+	if !ok {
+		return -1, ds.ErrNotFound
+	}
+	return len(v), nil
+}
+
 func (t *txn) Query(ctx context.Context, q query.Query) (query.Results, error) {
-	return t.d.Query(ctx, q)
+	if t.snap == nil {
+		return t.d.Query(ctx, q)
+	}
+	if err := t.d.pre("read", "query", q.Prefix); err != nil {
+		return nil, err
+	}
+	var es []query.Entry
+	for k, v := range t.snap {
+		if strings.HasPrefix(k, q.Prefix) {
+			es = append(es, query.Entry{Key: k, Value: append([]byte(nil), v...), Size: len(v)})
+		}
+	}
+	sort.Slice(es, func(i, j int) bool { return es[i].Key < es[j].Key })
+	return query.NaiveQueryApply(q, query.ResultsWithEntries(q, es)), nil
 }
 func (t *txn) Put(ctx context.Context, key ds.Key, value []byte) error { return errors.New("read-only") }
 func (t *txn) Delete(ctx context.Context, key ds.Key) error            { return errors.New("read-only") }
@@ -354,11 +421,14 @@ func (t *txn) Discard(ctx context.Context)                             {}
 // Flavour wraps the disk the way an application would hand it to
 // store.NewStore: "plain" = Batching only; "ctx" = context-aware datastore
 // over a Batching+Txn disk (deletes are then collected in a context batch and
-// reads go through read transactions).
+// reads go through read transactions); "snap" = the same with snapshot-isolated
+// read transactions.
 func (d *Disk) Flavour(f string) ds.Batching {
 	switch f {
 	case "ctx":
-		return contextds.WrapDatastore(TxnDisk{d}).(ds.Batching)
+		return contextds.WrapDatastore(TxnDisk{Disk: d}).(ds.Batching)
+	case "snap":
+		return contextds.WrapDatastore(TxnDisk{Disk: d, Snapshot: true}).(ds.Batching)
 	default:
 		return d
 	}
